@@ -13,6 +13,12 @@ package sync
 //
 //@ guarded Map.data by Map.mutex
 //
+// The field m.data itself is assigned only by NewMap: every method works on the one map object in place
+// (LoadAndDeleteAll empties it and hands out a copy). What an acquire forgets is the contents of that
+// map, not which map it is - an iteration that releases the lock between elements (Range) relies on this.
+//
+//@ immutable Map.data
+//
 //@ func (*Map) Store(key K, value V)
 //@   requires m != nil
 //@   cs-pure mapUnchanged(m.data)
@@ -95,10 +101,17 @@ package sync
 //@   atomic [delete] callRes(onReplaceFunc, 0, 1) ==> mapIsDelete(m.data, key)
 //@   atomic [store] !callRes(onReplaceFunc, 0, 1) ==> mapIsStore(m.data, key, callRes(onReplaceFunc, 0, 0))
 //
+// LoadAndDeleteAll: the result is the call's own fresh map holding exactly the entries the map has at the
+// instant it is emptied; the map object of m stays the same one (it is emptied in place).
+//
 //@ func (*Map) LoadAndDeleteAll() (r map[K]V)
 //@   requires m != nil
 //@   cs-pure mapUnchanged(m.data)
-//@   atomic [result] r == old(m.data) && fresh(m.data) && (forall k int :: !present(m.data, k))
+//@   atomic [emptied] forall k int :: !present(m.data, k)
+//@   atomic [same-map] m.data == old(m.data)
+//@   atomic [result-keys] forall k int :: {present(r, k)} present(r, k) <==> old(present(m.data, k))
+//@   atomic [result-values] forall k int :: {present(r, k)} old(present(m.data, k)) ==> r[k] == old(m.data[k])
+//@   ensures [own-copy] fresh(r)
 //
 //@ func (*Map) LoadAndDeleteWithFunc(key K, onLoadFunc func(value V) V) (v V, ok bool)
 //@   requires m != nil
